@@ -456,6 +456,51 @@ def tail_definitions(src, fmt, regw):
         out.append("Definition amd64_resolve_checked : bool := false.  (* resolve(): plain `+` *)\n")
     else:
         die("amd64 resolve(): neither the checked_add form nor the plain `+` form")
+    # ---- lib.rs StackFrame::from_context: the initialisers of `instruction` and `resume_address`
+    lib = src["lib"]
+    m = one(lib, r"pub fn from_context\(context: MinidumpContext, trust: FrameTrust\) -> StackFrame \{\s*StackFrame \{(.*?)\n            module: None,", "StackFrame::from_context", re.S)
+    atoms = {"context.get_instruction_pointer()": ("ip", "u64"), "context.get_stack_pointer()": ("sp", "u64")}
+    what = "lib.rs StackFrame::from_context"
+    toks = tokenize(m.group(1), what)
+    fields = {}
+    ps = TailParser(toks, atoms, what, 595)
+    while ps.peek() is not None:
+        name = ps.eat()
+        ps.eat(":")
+        pre, t, ty = ps.expr({})
+        ps.eat(",")
+        if pre or ty != "u64":
+            die(what + ": initialiser of %s is not a plain u64 expression" % name)
+        fields[name] = t
+    if sorted(fields) != ["instruction", "resume_address"]:
+        die(what + ": fields before `module: None` are %s" % sorted(fields))
+    out.append("(* lib.rs StackFrame::from_context: `instruction: ..` and `resume_address: ..` as functions of the context's\n"
+               "   get_instruction_pointer() / get_stack_pointer() *)\n"
+               "Definition lib_from_context_instruction (ip sp : Z) : Z := %s.\n"
+               "Definition lib_from_context_resume (ip sp : Z) : Z := %s.\n" % (fields["instruction"], fields["resume_address"]))
+    # ---- lib.rs fill_source_line_info: the address the module is looked up with, and the one fill_symbol is given
+    m = one(lib, r"\n    // Find the module whose address range covers this frame's instruction\.\n"
+                 r"    if let Some\(module\) = modules\.module_at_address\(([^\n]*)\) \{\n"
+                 r"(?:\s*//[^\n]*\n)*\s*frame\.module = Some\(module\.clone\(\)\);\n"
+                 r"(?:\s*//[^\n]*\n|\s*\n)*\s*let _ = symbol_provider\.fill_symbol\(module, frame\)\.await;\n"
+                 r"(?:\s*//[^\n]*\n|\s*\n)*\s*frame\.inlines\.reverse\(\);\n    \}\n\}\n", "fill_source_line_info body", re.S)
+    what = "lib.rs fill_source_line_info: argument of module_at_address"
+    fatoms = {"frame.instruction": ("instruction", "u64"), "frame.resume_address": ("resume_address", "u64")}
+    ps = TailParser(tokenize(m.group(1), what), fatoms, what, 597)
+    pre, t_mod, ty = ps.expr({})
+    if pre or ty != "u64" or ps.peek() is not None:
+        die(what + ": not a plain u64 expression")
+    m = one(lib, r"impl FrameSymbolizer for StackFrame \{\s*fn get_instruction\(&self\) -> u64 \{\s*([^\n]*)\n\s*\}", "FrameSymbolizer::get_instruction of StackFrame")
+    what = "lib.rs <StackFrame as FrameSymbolizer>::get_instruction"
+    satoms = {"self.instruction": ("instruction", "u64"), "self.resume_address": ("resume_address", "u64")}
+    ps = TailParser(tokenize(m.group(1), what), satoms, what, 598)
+    pre, t_sym, ty = ps.expr({})
+    if pre or ty != "u64" or ps.peek() is not None:
+        die(what + ": not a plain u64 expression")
+    out.append("(* lib.rs fill_source_line_info / FrameSymbolizer::get_instruction: the address a frame's module is looked up with\n"
+               "   (modules.module_at_address(..)) and the address fill_symbol symbolizes (frame.get_instruction()) *)\n"
+               "Definition lib_module_lookup_address (instruction resume_address : Z) : Z := %s.\n"
+               "Definition lib_symbol_lookup_address (instruction resume_address : Z) : Z := %s.\n" % (t_mod, t_sym))
     return ("(* GENERATED by translate/unwind_consts.py from /repo/minidump-unwind/src/{x86,amd64,arm,arm64,mips,lib}.rs -- do not edit.\n"
             "   The guard expressions at the end of every get_caller_frame, the stop guard of walk_stack and the arithmetic flavour of\n"
             "   amd64's resolve(), re-emitted from the Rust text (statement by statement, operator by operator). *)\n"
